@@ -51,13 +51,18 @@ def scenarios(ctx: Ctx):
     scs = []
     allscripts = scripts_exhaustive(3 if ctx.quick else 4)
     progsets = [rtcheck.LIB['T'], rtcheck.LIB['A'], rtcheck.LIB['R'], rtcheck.LIB['R2']]
-    n = 600 if ctx.quick else 15000
-    pick = allscripts if len(allscripts) <= n // 2 else rng.sample(allscripts, n // 2)
+    n = 720 if ctx.quick else 15000
     i = 0
-    # single client scripts, exhaustive over the call alphabet (sampled beyond length 3)
-    for s in pick:
+    # single client scripts, EXHAUSTIVE over the call alphabet up to the tier's length (357 scripts of <= 3 calls, 4326 of <= 4), each
+    # with a compilation that succeeds (with a failing one the script ends at the first error, so those are a sample on top)
+    for s in allscripts:
         topo = ['detached', [[2], [1, 1], [1]][i % 3]] if i % 4 else ['attached', 2]
-        scs.append({'topo': topo, 'progs': progsets[i % len(progsets)], 'clients': [s], 'sched': ['random', ctx.seed * 100003 + i],
+        scs.append({'topo': topo, 'progs': progsets[(i // 4) % 2], 'clients': [s], 'sched': ['random', ctx.seed * 100003 + i],
+                    'lines': False, 'crash': None, 'probe': topo[0] == 'detached'})
+        i += 1
+    for s in rng.sample(allscripts, min(len(allscripts), 120 if ctx.quick else 3000)):
+        topo = ['detached', [[2], [1, 1], [1]][i % 3]] if i % 4 else ['attached', 2]
+        scs.append({'topo': topo, 'progs': progsets[2 + (i // 4) % 2], 'clients': [s], 'sched': ['random', ctx.seed * 100003 + i],
                     'lines': False, 'crash': None, 'probe': topo[0] == 'detached'})
         i += 1
     # late errors: a descendant raises while the root still completes (its future is never awaited); the ERROR may reach the
@@ -120,7 +125,8 @@ def run(ctx: Ctx) -> Outcome:
     scs = scs + tlc_scs
     out = rtcheck.validate('C13', scs, ctx, also=('C07',), extra_cov=model_cov, results=results)
     out.notes += notes
-    out.coverage['exhaustive_part'] = 'all single-client scripts of <= 3 calls over {submit,status,result,cancel} x {own id A, second id B, unknown id}'
+    out.coverage['exhaustive_part'] = ('all single-client scripts of <= %d calls over {submit,status,result,cancel} x {own id A, second id B, unknown id} '
+                                       '(every one of them run with a compilation that succeeds)' % (3 if ctx.quick else 4))
     out.assumptions = ['clients issue one request at a time per connection (the Compiler API is synchronous)',
                        'an explicit "Unknown task" refusal followed by the server closing that client\'s connection is the documented bad-client policy']
     return out
